@@ -134,8 +134,9 @@ class Keccak(object):
 
     # Duplex construction (see "Cryptographic Sponge Functions", http://sponge.noekeon.org)
     def duplex(self,m,bitlen=None,outlen=None):
-        self.duplexing = True
+        mode,self.duplexing = self.duplexing,True
         L = [x for x in self.iterblocks(m,bitlen)]
+        self.duplexing = mode
         assert len(L)==1
         if outlen is None: outlen=self.r
         if not hasattr(self,'_S'):
